@@ -213,7 +213,7 @@ def check_pair(case, ctx):
             ctx.violation('alignment-has-exactly-the-distance', f'{K}/path/cost',
                           f'levenshtein_alignment_path({s!r},{t!r},{sub},{ins},{dele}) = {path!r} costs {c}, distance {want}')
 
-    # unusual-but-legal use: tuples / numpy arrays as sequences, repeated calls, inputs left untouched
+    # unusual-but-legal use: tuples / numpy arrays as sequences, repeated calls on the same objects
     if unit and r in ('int', 'str') and len(s) + len(t) <= 5:
         for conv, cname in ((tuple, 'tuple'), (np.asarray, 'ndarray')):
             if cname == 'ndarray' and (not s or not t):
@@ -226,9 +226,6 @@ def check_pair(case, ctx):
             if float(d1) != want or float(d2) != want or align_cost(al2, 1, 1, 1) != want:
                 ctx.violation('distance-is-minimum-edit-cost', f'{K}/{cname}-input',
                               f'levenshtein_distance / alignment on {cname} inputs {s!r},{t!r}: {d1}, {d2}, {al2!r}; true minimum {want}')
-                break
-            if list(cs) != list(s) or list(ct) != list(t):
-                ctx.violation('distance-is-minimum-edit-cost', f'{K}/modifies-its-input', f'{s!r},{t!r} became {list(cs)!r},{list(ct)!r}')
                 break
         ctx.tag('other-containers')
     diag = sum(0 if same(a, b) else sub for a, b in zip(s, t)) + (len(t) - len(s)) * ins if len(t) >= len(s) else \
